@@ -3,6 +3,7 @@ package main
 import (
 	"encoding/json"
 	"fmt"
+	"strings"
 	"time"
 
 	"verifharness/hx"
@@ -298,6 +299,112 @@ func checkC17(c *hx.Ctx) {
 		}
 		c.Floor("json_patch_test_equal_applied", 30)
 		c.Floor("json_patch_test_unequal_failed", 30)
+	}
+	// ---- JSON pointers are split at "/" first and unescaped afterwards (RFC 6901): a member named "a/b" and the member "b"
+	// of "a" are different locations, and copying between them is an ordinary copy
+	{
+		type ptrCase struct {
+			doc  map[string]interface{}
+			ops  []map[string]interface{}
+			want map[string]interface{}
+		}
+		base := func() map[string]interface{} {
+			return map[string]interface{}{"a/b": map[string]interface{}{"k": 1.0}, "a": map[string]interface{}{"b": map[string]interface{}{"c": 0.0}}, "a~b": []interface{}{"t"}}
+		}
+		var cases []ptrCase
+		{
+			w := base()
+			w["a"].(map[string]interface{})["b"].(map[string]interface{})["c"] = map[string]interface{}{"k": 1.0}
+			cases = append(cases, ptrCase{base(), []map[string]interface{}{{"op": "copy", "from": "/a~1b", "path": "/a/b/c"}}, w})
+		}
+		{
+			w := base()
+			w["a/b"].(map[string]interface{})["c"] = map[string]interface{}{"c": 0.0}
+			cases = append(cases, ptrCase{base(), []map[string]interface{}{{"op": "copy", "from": "/a/b", "path": "/a~1b/c"}}, w})
+		}
+		{
+			w := base()
+			w["x"] = []interface{}{"t"}
+			w["a/b"].(map[string]interface{})["k"] = "new"
+			cases = append(cases, ptrCase{base(), []map[string]interface{}{{"op": "copy", "from": "/a~0b", "path": "/x"}, {"op": "replace", "path": "/a~1b/k", "value": "new"}}, w})
+		}
+		{
+			w := base()
+			w["a/b"] = map[string]interface{}{"b": map[string]interface{}{"c": 0.0}}
+			cases = append(cases, ptrCase{base(), []map[string]interface{}{{"op": "copy", "from": "/a", "path": "/a~1b"}}, w})
+		}
+		for ci, pcase := range cases {
+			c.Eval()
+			patches := []interface{}{patchJSON(pcase.ops...)}
+			rep, ok := composeRun(c, pool, composeCase{Doc: mustJSON(pcase.doc), Patches: mustJSON(patches)}, "json-pointer-escapes")
+			if !ok || rep == nil {
+				return
+			}
+			if rep.DeltaErr != "" {
+				c.Count("json_pointer_cases_not_validated")
+				continue
+			}
+			if rep.ApplyErr != "" || docKeyOf(rep.Result) != ref.DocKey(pcase.want) {
+				c.Violation(fmt.Sprintf("C17 JSON patch with escaped pointer tokens (case %d): err=%q\n   result:   %s\n   expected: %s", ci, rep.ApplyErr, trunc600(docKeyOf(rep.Result)), trunc600(ref.DocKey(pcase.want))),
+					map[string]interface{}{"doc": pcase.doc, "operations": pcase.ops, "expected": pcase.want, "result": rawTree(rep.Result)})
+				return
+			}
+			c.Count("json_pointer_escape_cases")
+		}
+		c.Floor("json_pointer_escape_cases", 4)
+	}
+	// ---- also-known-as lists that hold members which are not strings (reachable through an accepted JSON patch): add / remove
+	// patches treat the string members exactly as if the other members were not there
+	{
+		ar := c.Rng("aka-non-strings")
+		for k := 0; k < c.N(60, 600); k++ {
+			ids := newIDPool(ar)
+			var strs []interface{}
+			for n := 0; n < 1+ar.Intn(4); n++ {
+				strs = append(strs, ids.uri(ar))
+			}
+			strs = distinctOf(len(strs), func() string { v := strs[0].(string); strs = strs[1:]; return v })
+			mixed := append([]interface{}{}, strs...)
+			for n := 0; n < 1+ar.Intn(2); n++ {
+				at := ar.Intn(len(mixed) + 1)
+				junk := hx.Pick(ar, []interface{}{42.0, nil, true, map[string]interface{}{"x": 1.0}, []interface{}{"y"}})
+				mixed = append(append(append([]interface{}{}, mixed[:at]...), junk), mixed[at:]...)
+			}
+			var patches []interface{}
+			for n := 0; n < 1+ar.Intn(3); n++ {
+				act := hx.Pick(ar, []string{"add-also-known-as", "remove-also-known-as"})
+				patches = append(patches, map[string]interface{}{"action": act, "uris": distinctOf(1+ar.Intn(3), func() string { return ids.uri(ar) })})
+			}
+			clean := map[string]interface{}{"alsoKnownAs": strs, "note": "n"}
+			dirty := map[string]interface{}{"alsoKnownAs": mixed, "note": "n"}
+			c.Eval()
+			a, ok := composeRun(c, pool, composeCase{Doc: mustJSON(clean), Patches: mustJSON(patches)}, "aka-strings-only")
+			if !ok || a == nil {
+				return
+			}
+			b, ok := composeRun(c, pool, composeCase{Doc: mustJSON(dirty), Patches: mustJSON(patches)}, "aka-with-non-strings")
+			if !ok || b == nil {
+				return
+			}
+			strsOf := func(raw json.RawMessage) string {
+				t, _ := rawTree(raw).(map[string]interface{})
+				var out []string
+				l, _ := t["alsoKnownAs"].([]interface{})
+				for _, v := range l {
+					if s, isS := v.(string); isS {
+						out = append(out, s)
+					}
+				}
+				return strings.Join(out, " ")
+			}
+			if (a.ApplyErr == "") != (b.ApplyErr == "") || (a.ApplyErr == "" && strsOf(a.Result) != strsOf(b.Result)) {
+				c.Violation(fmt.Sprintf("C17 also-known-as patches give other URIs when the list also holds members that are not strings: [%s] vs [%s] (errors %q / %q)", strsOf(a.Result), strsOf(b.Result), a.ApplyErr, b.ApplyErr),
+					map[string]interface{}{"also_known_as": mixed, "patches": patches})
+				return
+			}
+			c.Count("aka_lists_with_non_string_members")
+		}
+		c.Floor("aka_lists_with_non_string_members", 50)
 	}
 	// ---- PatchesFromDocument round trip
 	nDocs := c.N(4000, 80000)
